@@ -13,7 +13,7 @@ RULE = ("cases = (subspace, point) pairs and predicate arguments enumerated by T
         "3-space through two lattice points x points, line/plane pairs for is_parallel/is_perpendicular, point quadruples for "
         "is_cocircular/is_collinear (repeated points incl.), quintuples for is_coplanar, line pairs for angle_bisectors; "
         "non-trivial = point-on-subspace, parallel, perpendicular, equal, cocircular, collinear, repeated-point, coplanar")
-INVS = ["HyperLaws", "Perp2Laws", "Perp3eLaws", "Line3Laws", "BisLaws", "CocircDef"]
+INVS = ["DirectionMirror", "HyperLaws", "Perp2Laws", "Perp3eLaws", "Line3Laws", "BisLaws", "CocircDef"]
 
 
 def replay(recs):
@@ -64,6 +64,18 @@ def replay(recs):
             chk(f"{hk}.parallel/{dim}D", st, case, r["par"], lambda: h.parallel(p), cls("line" if dim == 2 else "plane", r["par"]))
             chk(f"{hk}.project/{dim}D", st, case, r["foot"], lambda: h.project(p), cls("point", r["foot"]))
             chk(f"{hk}.mirror/{dim}D", st, case, r["mir"], lambda: h.mirror(p), cls("point", r["mir"]))
+            if dim == 3 and r.get("mird"):
+                # a point at infinity: the library's construction does not handle every direction (it may raise
+                # LinearDependenceError); when it returns, the result must be the reflected direction
+                dpt = g.Point(np.array(list(r["p"][:-1]) + [0]))
+
+                def mirror_dir():
+                    try:
+                        return h.mirror(dpt)
+                    except g.exceptions.LinearDependenceError:
+                        return None
+                chk("Plane.mirror(direction)/3D", st, {"h": r["h"], "direction": list(r["p"][:-1]) + [0]}, r["mird"], mirror_dir,
+                    lambda v: v is None or (kind_of(v) == "point" and same_class(coords_of(v), r["mird"])))
             # the hyperplane stored with complex dtype (what angle_bisectors, mirror and perpendicular themselves return) and
             # scaled: the four constructions in sequence on the SAME object, which must also come out unchanged
             hc = (g.Line if dim == 2 else g.Plane)(np.array(r["h"], dtype=complex) * 2)
